@@ -39,12 +39,17 @@ func main() {
 			"wildcard dnsNames, ~/*, */*) and in 40% of worlds a planted VirtualService-destination shape (destination service in the proxy namespace not exported to it). " +
 			"Every object passes istio's admission validation (rejected ones are dropped). For 3 sidecar proxies in distinct namespaces (+ sometimes a router) the real CDS, LDS and RDS " +
 			"are generated and every outbound|port|subset|host reference, EDS name, virtual host, SNI match and every planted marker (service VIP / endpoint address, DestinationRule " +
-			"maxConnections/SNI/hash header, VirtualService response header, istio metadata) is judged. Non-trivial: for at least one proxy the reference hides at least one service " +
-			"instance and requires at least one; distinct = hash of the world.",
+			"maxConnections/SNI/hash header, VirtualService response header, istio metadata) is judged (negative direction); positive direction per hostname: when at least one service " +
+			"with the hostname is exported and selected by a port-unrestricted egress host, some deliverable same-hostname service has clusters for all its ports not owned by a port-bound listener. " +
+			"Violation keys name the root cause as recognised from the INPUT shape only (leak=...: reason/vsdest/own-ns, DestinationRule exportTo form incl. unset-under-mesh-default; " +
+			"missing=cluster explained-by=unexported-own-namespace-virtualservice-destination | egress-listeners-select-different-namespaces | none); an unrecognised shape keeps the generic key. " +
+			"Non-trivial: for at least one proxy the reference hides at least one service instance and requires at least one; distinct = hash of the world.",
 		Assumptions: []string{
 			"trusted base: ref.go, a visibility evaluator written from istio.io/api (sidecar.proto, exportTo of ServiceEntry/VirtualService/DestinationRule, MeshConfig default*ExportTo and serviceEntryVisibility) and the property text",
 			"core.NewConfigGenTest (in-memory config store, ServiceEntry registry, memory registry holding services produced by kube.ConvertService) stands for istiod's push context; EDS names are taken from CDS",
 			"where the documentation is silent (wildcard-vs-exact egress matching, which same-hostname service wins, ports pulled in by a VirtualService destination) the negative checks use the permissive reading and the positive check the strict one; such cases are counted under unspecified:*",
+			"mesh default*ExportTo values \"~\" and namespace lists are inside the quantifier for all three settings: config.proto documents defaultVirtualServiceExportTo/defaultDestinationRuleExportTo as having the same syntax as defaultServiceExportTo (namespace names, * . ~) and ValidateMeshConfig accepts them",
+			"all pilot feature flags at their defaults: in particular PILOT_SIDECAR_PICK_BEST_SERVICE_NAMESPACE=true, so pickFirstVisibleNamespace is never executed and not observed; UnifiedSidecarScoping, FilterGatewayClusterConfig, ScopeGatewayToNamespace likewise only in their default setting",
 		},
 		Anchors: []string{
 			"pilot/pkg/model/sidecar.go", "pilot/pkg/model/push_context.go", "pilot/pkg/model/virtualservice.go", "pilot/pkg/model/destination_rule.go",
@@ -52,7 +57,7 @@ func main() {
 		},
 		MinNontrivial: func(t string) int { return map[string]int{"quick": 150, "thorough": 4000}[t] },
 		Batches:       func(t string) int { return map[string]int{"quick": 6, "thorough": 8}[t] },
-		Parallel:      func(t string) int { return map[string]int{"quick": 6, "thorough": 8}[t] },
+		Parallel:      func(t string) int { return map[string]int{"quick": 6, "thorough": 6}[t] }, // <= 6 processes on the shared machine
 		TimeoutSec:    func(t string) int { return map[string]int{"quick": 600, "thorough": 2400}[t] },
 		Run:           run,
 	})
